@@ -20,7 +20,8 @@ Oracles
             dropout of >= 5 samples with a valid gyroscope, a filter that
             refused no sample moves at least half as far as the dead reckoning
             of the gyroscope samples it was given and as its dropout-free twin
-            (the smaller of the two, when that is >= 0.05 rad); EKF is exempt (it returns the
+            (the smaller of the two, when that is >= 0.05 rad; windows within
+            100 samples after a kick are not judged); EKF is exempt (it returns the
             prior, the mechanism the property names).
 """
 import copy
@@ -394,6 +395,9 @@ class Check:
                     continue
                 if any(g is not f and g['start'] <= e0 and g['start'] + g['len'] > s0 - 1 for g in drops):
                     continue            # another dropout overlaps: not attributable
+                if np.any(hist.fault_mask[max(0, s0 - 100):e0 + 1] & 32):
+                    continue            # a kick in or shortly before the window: the estimate's motion is then dominated by
+                                        # the correction towards the new attitude (which may oppose the gyroscope), not by it
                 win = out_f[s0 - 1:e0 + 1]
                 if not all(isinstance(o, np.ndarray) for o in win):
                     continue            # refused somewhere in the window: the application holds its attitude, by contract
